@@ -388,7 +388,13 @@ def check_case(case):
             inner_b = {"type": "bundle", "id": "bundle--3f2504e0-4f89-41d3-9a0c-0305e82c3301", "objects": [dict(case["doc"])]}
             for _ in range(n):
                 inner_b = {"type": "bundle", "id": "bundle--3f2504e0-4f89-41d3-9a0c-0305e82c3301", "objects": [inner_b]}
-            payload = json.dumps(inner_b) if as_text and n <= 900 else inner_b
+            if as_text and n <= 900:
+                # (the text is assembled by hand: json.dumps would hit the interpreter's recursion limit inside the HARNESS for n > ~480,
+                # two container levels per bundle)
+                head = '{"type": "bundle", "id": "bundle--3f2504e0-4f89-41d3-9a0c-0305e82c3301", "objects": ['
+                payload = head * (n + 1) + json.dumps(dict(case["doc"])) + "]}" * (n + 1)
+            else:
+                payload = inner_b
         elif where == "selector-deep":
             # ... and here the selector addresses the INNERMOST value: the walk is abandoned at the bottom of the nesting
             junk = make_junk({"$nest": n, "kind": kind})
